@@ -261,6 +261,10 @@ package parser
 //@   requires wfP(p) && forall(i, 0, len(p.intfEntries), p.intfEntries[i] != nil && p.intfEntries[i].intf != nil)
 //@   assigns p.file.Comments, arrays(*ast.CommentGroup), all(ast.CommentGroup.List), arrays(*ast.Comment)
 //@   atcall InsertComment: {C03,C11,C13} $arg0 == p.file && $arg1 == p.intfEntries[$k].marker
+// C03 "acceptance does not depend on the size of the interface": the closing marker must not fall inside the text
+// span of the opening marker comment (InsertComment would merge the two into one group and the cut would
+// fail).  Nothing in the code ensures it: known finding F14 (an interface body shorter than the marker).
+//@   atcall InsertComment: {C03,C11} $arg2 == *minPos || *minPos + len(p.intfEntries[$k].marker) <= $arg2
 //@   atcall MustCompile: {C03,C13} $arg0 == markerRe(p.intfEntries[$k].marker)
 //@   atcall ReplaceAllString: {C03,C13} $arg2 == p.intfEntries[$k].marker
 //@   use forall(i, 0, len(p.intfEntries), R6valid(p.intfEntries[i].marker))
